@@ -26,6 +26,18 @@ type sliceCtx struct {
 	preciseCalls bool
 }
 
+// child: a context for a callee entered from this one: shares the visited set and the record of unbound
+// parameters, keeps the precision mode.
+func (sc *sliceCtx) child() *sliceCtx {
+	if sc.paramPaths == nil {
+		sc.paramPaths = map[*ssa.Parameter][][]int{}
+	}
+	if sc.paramWhole == nil {
+		sc.paramWhole = map[*ssa.Parameter]bool{}
+	}
+	return &sliceCtx{seen: sc.seen, preciseCalls: sc.preciseCalls, paramPaths: sc.paramPaths, paramWhole: sc.paramWhole, cbDepth: sc.cbDepth}
+}
+
 func backSlice(v ssa.Value) map[ssa.Value]bool {
 	sc := &sliceCtx{seen: map[ssa.Value]bool{}}
 	sc.visit(v, nil)
@@ -109,7 +121,7 @@ func (sc *sliceCtx) visit(v ssa.Value, stack []*ssa.Call) {
 				for _, b := range cal.Blocks {
 					for _, ins := range b.Instrs {
 						if r, ok := ins.(*ssa.Return); ok && x.Index < len(r.Results) {
-							sub := &sliceCtx{seen: sc.seen}
+							sub := sc.child()
 							sub.visitCallee(r.Results[x.Index], append(append([]*ssa.Call{}, stack...), call))
 						}
 					}
@@ -126,9 +138,8 @@ func (sc *sliceCtx) visit(v ssa.Value, stack []*ssa.Call) {
 					for _, ins := range b.Instrs {
 						if r, ok := ins.(*ssa.Return); ok {
 							for _, rv := range r.Results {
-								sub := &sliceCtx{seen: sc.seen, preciseCalls: true, paramPaths: sc.paramPaths, paramWhole: sc.paramWhole}
+								sub := sc.child()
 								sub.visitCallee(rv, append(append([]*ssa.Call{}, stack...), x))
-								sc.paramPaths, sc.paramWhole = sub.paramPaths, sub.paramWhole
 							}
 						}
 					}
@@ -153,7 +164,7 @@ func (sc *sliceCtx) visit(v ssa.Value, stack []*ssa.Call) {
 				for _, ins := range b.Instrs {
 					if r, ok := ins.(*ssa.Return); ok {
 						for _, rv := range r.Results {
-							sub := &sliceCtx{seen: sc.seen}
+							sub := sc.child()
 							// allow revisiting parameters under this context
 							sub.visitCallee(rv, append(append([]*ssa.Call{}, stack...), x))
 						}
